@@ -159,14 +159,3 @@ def run(ctx, config='rel-all'):
         ctx.anchor_missing('R6', 'Bump::allocation_limit')
 
 
-def thorough(ctx):
-    for cfg in ('rel-default', 'rel-coll'):
-        sub = type(ctx)(ctx.pid, ctx.tier, ctx.seed)
-        sub.repo = ctx.repo
-        run(sub, cfg)
-        for v in sub.violations:
-            if not any(x['key'] == v['key'] for x in ctx.violations) and not v['key'].endswith('<floor>:acquire_sites_analysed_under_a_symbolic_limit_(one_per_entry_p'):
-                ctx.violations.append(v)
-        for k, n in sub.counts.items():
-            ctx.counts[k] = ctx.counts.get(k, 0) + n
-        ctx.configs_used.extend(sub.configs_used)
